@@ -14,6 +14,7 @@ CLAIMS = {
  "C03": ("model_checking", "Every reachable state within the bounds: Values() complete, duplicate-free, causal, sorted by the configured comparator (comparator verdicts are solver terms when clocks/hashes are symbolic) and independent of arrival order.", "§5 C03"),
  "C04": ("model_checking", "Every append in every bounded history, with symbolic initial clocks and a choice of pointer counts: predecessors = heads, clock id, strict clock dominance over all entries (solver, 64-bit), single head, reference discipline.", "§5 C04"),
  "C05": ("model_checking", "Deep snapshot of every log before each step of every bounded history, compared field-wise after it.", "§5 C05"),
+ "C07": ("model_checking", "The repository's signing path (CreateEntryWithIO, ToHashable, toBuffer, OrbitDB provider, keystore) is executed symbolically on an entry with symbolic payload bytes, clock and links; for each of 17 single-field modifications the solver shows that the signing documents differ (verification fails) or returns the colliding values.", "§5 C07"),
  "C09": ("model_checking", "All four loaders against the stored replica of every bounded history; in the explore runs every interleaving of the fetcher's worker goroutines (= every block arrival order) is enumerated by the engine's scheduler while data stays symbolic; result compared with the original log.", "§5 C09"),
  "C10": ("model_checking", "As C09 with every limit n in [0,size+1]; the expected set is computed by a reference oracle that does not depend on the schedule, so equality on every explored schedule is the required independence from concurrency and arrival order.", "§5 C10"),
  "C11": ("model_checking", "Symbolic fault table (absent / undecodable / hung) and exclusion set over the stored log, every worker interleaving; deadlock = non-termination; request journal checked for duplicates and excluded hashes; result compared with reference reachability.", "§5 C11"),
